@@ -19,6 +19,12 @@ OutFile == IOEnv.VERIF_OUT
 Operand(id) ==
     CASE id = "a"     -> <<TName("a")>>
       [] id = "b"     -> <<TName("b")>>
+      [] id = "a.b"   -> <<TName("a.b")>>      \* names with '.', '-', digits in non-initial position
+      [] id = "a-b"   -> <<TName("a-b")>>
+      [] id = "a1"    -> <<TName("a1")>>
+      [] id = "a.1"   -> <<TName("a.1")>>
+      [] id = "a-"    -> <<TName("a-")>>
+      [] id = "p:a.b" -> <<TName("p:a.b")>>
       [] id = "1"     -> <<TNum("1")>>
       [] id = ".5"    -> <<TNum(".5")>>
       [] id = "2"     -> <<TNum("2")>>
@@ -45,7 +51,7 @@ Operand(id) ==
 
 OpTok(id) == IF id \in {"or", "and", "div", "mod"} THEN TName(id) ELSE TSym(id)
 \* after a slash only a step may follow
-StepOperands == {"a", "b", "div", "mod", "and", "or", "*", "@a", "..", ".", "ax", "pred"}
+StepOperands == {"a", "b", "div", "mod", "and", "or", "*", "@a", "..", ".", "ax", "pred", "a.b", "a-b", "a1", "a.1", "a-", "p:a.b"}
 
 Init == toks = <<>> /\ nops = 0 /\ expectOperand = TRUE
 
